@@ -272,6 +272,8 @@ func opJSON(o jsonOp) map[string]interface{} {
 	case "ABSENT":
 	case "NONSTRING":
 		m["path"] = 7
+	case "NULL":
+		m["path"] = nil
 	default:
 		m["path"] = o.Path
 	}
@@ -279,6 +281,8 @@ func opJSON(o jsonOp) map[string]interface{} {
 	case "ABSENT":
 	case "NONSTRING":
 		m["from"] = 7
+	case "NULL":
+		m["from"] = nil
 	default:
 		m["from"] = o.From
 	}
@@ -536,7 +540,12 @@ func C18(c *ev.Ctx) {
 	for _, o := range msg.Ops {
 		jps = append(jps, jp{[]jsonOp{o.O}, o.Valid})
 	}
-	for _, f := range msg.First {
+	firsts := msg.First
+	if len(firsts) == 0 {
+		// quick tier: at least the aliasing first operation (the library's copy shares the copied value)
+		firsts = []jsonOp{{Op: "copy", Path: "/copied", From: "/other", Value: "ABSENT"}}
+	}
+	for _, f := range firsts {
 		for _, o := range msg.Ops {
 			jps = append(jps, jp{[]jsonOp{f, o.O}, o.Valid})
 		}
@@ -616,6 +625,6 @@ func C18(c *ev.Ctx) {
 	c.Cov.Extra["accepted_patch_applications"] = applied
 	c.Cov.Extra["applications_returning_a_document"] = applyOK
 	c.Cov.Extra["valid_cases_rejected_by_validator"] = stricter
-	c.Cov.Rule = "PatchRules.tla: baseline of each patch kind + every combination of <= MaxDev rule deviations (id class - the class badChar is realised as every ASCII character outside [A-Za-z0-9_-] at the start / middle / end of an id plus non-ASCII letters -, duplicate id, key type x purposes, key material, unknown member, missing type, service type length, endpoint forms, remove-id / URI list classes, replace document contents, action enabled); verdict: the real ValidateDelta must not accept a case Valid() rejects. JSON patches: all single RFC 6902 operations over 7 ops x 17 path classes x 7 from classes x 3 value classes (thorough: preceded by 5 state-setting first operations). Every accepted patch is applied by the real composer to 6 small documents in a crash-isolated child process: no panic / crash / hang, and an accepted JSON patch must leave the public-key and service sections untouched."
+	c.Cov.Rule = "PatchRules.tla: baseline of each patch kind + every combination of <= MaxDev rule deviations (id class - the class badChar is realised as every ASCII character outside [A-Za-z0-9_-] at the start / middle / end of an id plus non-ASCII letters -, duplicate id, key type x purposes, key material, unknown member, missing type, service type length, endpoint forms, remove-id / URI list classes, replace document contents, action enabled); verdict: the real ValidateDelta must not accept a case Valid() rejects. JSON patches: all single RFC 6902 operations over 7 ops x 18 path classes x 9 from classes x 3 value classes (null members included), alone and preceded by the aliasing first operation {copy /other -> /copied} (thorough: by 5 state-setting first operations). Every accepted patch is applied by the real composer to 6 small documents in a crash-isolated child process: no panic / crash / hang, and an accepted JSON patch must leave the public-key and service sections untouched."
 	c.Finish("model_checking")
 }
